@@ -25,6 +25,10 @@ rule("C09.h", "a loop over the assets of a portfolio reads nothing from the shar
 rule("C16.h", "a wrapper (scaled / structured / linked asset) reads the shared grid cache only after re-establishing it for itself, "
               "i.e. after the wrapped set-up has overwritten it (the wrapper's own window - clipped to the horizon - decides what it adds, "
               "e.g. the duration its fix costs count for, not the window of what it wraps)", floor=2, props=["C16", "C08"])
+rule("C09.l", "what is reported for an asset does not depend on which asset was set up last: the report methods (dcf, fill_level) read the shared "
+              "grid's per-asset cache (restricted, discount_factors) only after re-establishing it for their own asset - after a portfolio set-up "
+              "the cache belongs to the last asset of the list, so the cash flows of a coarse-frequency asset would change with the order of the "
+              "assets", floor=2)
 rule("C05.r", "the reported fill level is computed on the storage's own window: Storage.fill_level is public (the report calls it, users call it) "
               "and (re-)establishes the shared grid's cache for its asset before it reads restricted.I / .dt - it does not rely on a caller to "
               "have done so (the cache belongs to whichever asset was set up last: inflow would be accumulated over another asset's window)",
@@ -195,7 +199,7 @@ def must_assign(fn) -> frozenset:
     return out if out is not None else frozenset()
 
 
-@analysis("gridcache", ["C10.b", "C10.c", "C16.h", "C10.g", "C17.i", "C09.h", "C10.j", "C05.r"])
+@analysis("gridcache", ["C10.b", "C10.c", "C16.h", "C10.g", "C17.i", "C09.h", "C10.j", "C05.r", "C09.l"])
 def run(ctx):
     p = ctx.p
     an = CacheAnalysis(ctx)
@@ -224,12 +228,19 @@ def run(ctx):
                     ctx.ob("C16.h", fn, "grid cache read before (re-)establishment", True, trivial=not reads_any)
                 if mname == "fill_level" and fn.cls is not None and fn.cls.name == "Storage":
                     ctx.ob("C05.r", fn, "grid cache read before (re-)establishment", True, trivial=not reads_any)
+                if mname in ("dcf", "fill_level"):
+                    ctx.ob("C09.l", fn, "grid cache read before (re-)establishment", True, trivial=not reads_any)
                 continue
             detail = "; ".join("%s%s" % (p.where(n), (" (in helper %s)" % via.qualname) if via is not None else "") for n, via in sites[:6])
             ctx.ob("C10.b", fn, "grid cache read before (re-)establishment", False,
                    "self.timegrid.restricted / .discount_factors belong to whichever asset set the shared grid last; here they "
                    "are read on a path on which this asset has not (re-)established them (documented timegrid=None path, or "
                    "after another asset's set-up): " + detail, node=sites[0][0])
+            if mname in ("dcf", "fill_level"):
+                ctx.ob("C09.l", fn, "grid cache read before (re-)establishment", False,
+                       "%s reads the per-asset cache of the shared grid without (re-)establishing it: " % fn.qualname + detail + " - after the portfolio's set-up "
+                       "it holds the window / coarse intervals / discount factors of the asset that was set up last: the cash flows reported for a "
+                       "coarse-frequency asset change when the assets are permuted (totals 2000 vs 4000)", node=sites[0][0])
             if mname == "fill_level" and fn.cls is not None and fn.cls.name == "Storage":
                 ctx.ob("C05.r", fn, "grid cache read before (re-)establishment", False,
                        "fill_level reads the window / step lengths of the shared grid without (re-)establishing them for the storage: " + detail +
